@@ -29,6 +29,27 @@ CLAIMS = {
         'technique': 'TLA+ model checking (TLC) + block decoding in schedule replay and TLC trace validation',
         'design_ref': '5/C02',
     },
+    'C18': {
+        'level': 'model_checking',
+        'text': 'Migrate.tla (one action per statement of Update/updateScripts, crash/fail at every step, restart) is model-checked by TLC on abstract DDL '
+                'ops GENERATED FROM THE REAL ctrl/qryn/sql/*.sql files for VerOnlyAfterComplete, Restartable (from every reachable database state a '
+                'fault-free run completes in the schema of an uninterrupted run), NeverRefused, FinishedMeansAll, VerMonotone. Counterexamples are replayed '
+                'against the real maintenance.Update over fakeconn; every statement x {fail, crash-before, crash-after} (+ sampled double faults) of every '
+                'mode is swept against the real code with restart/schema/version/no-op checks, and all statement logs are validated as Migrate behaviours by TLC.',
+        'note': 'fakeconn models ClickHouse DDL semantics (guards, RENAME, ADD COLUMN); MODIFY ORDER BY/SETTING/TTL treated as idempotent; crash granularity = one statement.',
+        'technique': 'TLA+ model checking (TLC) on ops generated from the .sql files + counterexample replay + fault sweep + TLC trace validation',
+        'design_ref': '5/C18',
+    },
+    'C19': {
+        'level': 'model_checking',
+        'text': 'Rotate.tla (one action per statement of storagePolicyUpdate/rotateTables, faults, re-runs, configuration changes) is model-checked by TLC for '
+                'RecordAfterAlters, Converged and RerunIsNoOp using the settings keys the code really uses (read off a recorded run). The real '
+                'maintenance.Rotate is swept over fakeconn (configurations x statement x window, re-runs, configuration changes) with semantic checks '
+                'of every table\'s final TTL (clamps, disks, drop days) and policy, and its statement logs are validated as Rotate behaviours by TLC.',
+        'note': 'fakeconn models MODIFY TTL/SETTING as attribute replacement; TTL strings compared semantically.',
+        'technique': 'TLA+ model checking (TLC) + fault/config sweep of the real Rotate + TLC trace validation',
+        'design_ref': '5/C19',
+    },
 }
 
 NOT_YET = 'check not built yet in this round (planned, see DESIGN.md section 5); not claimed until its machinery runs'
